@@ -3,7 +3,7 @@
 
   runner/cover_survey.py [Cxx ...]
 
-Builds every harness with `go build -cover -coverpkg=github.com/protolambda/zrnt/...` (VERIF_COVER, see lib.build_harness),
+Builds every harness with `go build -cover -coverpkg=github.com/protolambda/zrnt/eth2/...` (VERIF_COVER, see lib.build_harness),
 runs the quick tier of the named checks (default: all) with GOCOVERDIR pointing at a scratch directory outside /verif,
 merges the counters with `go tool covdata func` and writes coverage/functions.txt (per function) and
 coverage/unreached.txt (functions of eth2/ never entered). It is a survey for the maintainers of the checks: nothing
